@@ -524,15 +524,15 @@ Section Move.
   Lemma move_copy_safe st w nf : dirs_added s st -> safe (Pc c s) (Qc c s) (move_copy src tgt now) st w nf.
   Proof.
     intros Hd. unfold move_copy.
-    apply safe_Do_query_eval; [reflexivity|apply A_P; auto|].
-    rewrite lexists_eval_norm. fold tg. destruct (lexists st tg) eqn:Hex.
-    { cbn [safe]. split; [apply A_P; auto|apply A_QErr; auto]. }
     apply (mkdirs_of_safe (Pc c s) (Qc c s) st).
     - intros st' Hd'. apply A_P. eapply dirs_added_trans; eauto.
     - intros st' r w' nf' Hd'.
       assert (Hd2 : dirs_added s st') by (eapply dirs_added_trans; eauto).
       destruct r as [|e]; [|cbn [safe]; split; [apply A_P; auto|apply A_QErr; auto]].
-      pose proof (not_lexists_no_file st st' tg Hd' Hex) as Hnf.
+      apply safe_Do_query_eval; [reflexivity|apply A_P; auto|].
+      rewrite lexists_eval_norm. fold tg. destruct (lexists st' tg) eqn:Hex.
+      { cbn [safe]. split; [apply A_P; auto|apply A_QErr; auto]. }
+      pose proof (not_lexists_no_file st' st' tg (dirs_added_refl st') Hex) as Hnf.
       (* the copy *)
       cbn [safe]. split; [apply A_P; auto|]. split.
       + intros m Hm. unfold mids in Hm. cbn [ncall] in Hm. rewrite (norm_of_clean src) in Hm by auto. fold tg in Hm.
@@ -574,10 +574,10 @@ Section Move.
   Proof.
     destruct b; [|apply move_copy_safe, dirs_added_refl].
     unfold move_rename.
-    apply safe_Do_query; [reflexivity|apply A_P, dirs_added_refl|].
-    intros [|e]; [apply move_copy_safe, dirs_added_refl|].
     apply (mkdirs_of_safe (Pc c s) (Qc c s) s); [intros; apply A_P; auto| |apply dirs_added_refl].
     intros st r w' nf' Hd. destruct r as [|e']; [|apply move_copy_safe; auto].
+    apply safe_Do_query; [reflexivity|apply A_P; auto|].
+    intros [|e]; [apply move_copy_safe; auto|].
     destruct (A_src st Hd) as (E & Ei & En).
     apply safe_Do_nocopy; try (intros; discriminate); try reflexivity; [apply A_P; auto| |].
     - intros ft. cbn [ok_of]. apply move_copy_safe; auto.
